@@ -70,7 +70,8 @@ def gen_cat_data(rng, n_series=None, big=False):
     from pptx.chart.data import CategoryChartData
 
     kind = rng.choice(["str", "str", "num", "date", "multi", "multi"])
-    cd = CategoryChartData(number_format=rng.choice(["General", "0.0", '#,##0']))
+    # a number format need not be a str: it is substituted as its str() (`'%s' % number_format`)
+    cd = CategoryChartData(number_format=rng.choice(["General", "0.0", '#,##0', 0, "General", "0.0"]))
     spec = {"kind": kind}
     if kind == "multi":
         depth = rng.randint(2, 4)
@@ -105,7 +106,7 @@ def gen_cat_data(rng, n_series=None, big=False):
         name = rng.choice(["S%d" % j, "s&%d" % j, "Serie %d" % j, "North\rEast%d" % j, "R&amp;D%d" % j, "&#65;-list%d" % j, "&lt;5 %d" % j, "tab\there%d" % j])
         # the number of values need not equal the number of (leaf) categories
         vals = gen_values(rng, rng.choice([n, n, n, n, max(0, n - 1), n + 2, 0]))
-        nf = rng.choice([None, None, "0.00"])
+        nf = rng.choice([None, None, "0.00", 2])
         cd.add_series(name, vals, nf) if nf else cd.add_series(name, vals)
         series.append((name, vals))
     spec["series"] = series
@@ -115,11 +116,11 @@ def gen_cat_data(rng, n_series=None, big=False):
 def gen_xy_data(rng, bubble=False):
     from pptx.chart.data import BubbleChartData, XyChartData
 
-    cd = (BubbleChartData if bubble else XyChartData)()
+    cd = (BubbleChartData if bubble else XyChartData)(*rng.choice([(), (), ("0.0",), (24,)]))
     series = []
     for j in range(rng.choice([1, 2, 3, 5])):
         name = rng.choice(["X%d" % j, "X%d" % j, "x\\ry%d" % j, "Q&amp;A%d" % j, "&#65;%d" % j])
-        se = cd.add_series(name)
+        se = cd.add_series(name, *rng.choice([(), (), ("0.00",), (42,)]))
         pts = []
         for _ in range(rng.choice([0, 1, 2, 3, 7])):
             p = (rng.randint(-50, 50), rng.randint(-50, 50)) + ((rng.randint(1, 20),) if bubble else ())
